@@ -98,6 +98,25 @@ func dosFamilies(thorough bool) []dosFamily {
 			}
 			return mk(""), mk(" + 1")
 		}},
+		{"doubling-dag-after-many-values-in-one-loop", pick([]int{600, 1300, 2600}, []int{600, 1300, 2600, 6000}), func(n int) (string, string) {
+			// n ordinary values are analysed in the loop first, THEN comes a chain whose every link uses the
+			// previous one twice (40 links): whatever keeps the analysis linear on shared values must still
+			// do so when the loop is big
+			mk := func(extra string) string {
+				var a strings.Builder
+				a.WriteString(hdr + "func F(n int, xs []int) int {\n\ts := 0\n\tfor i := 0; i < n; i++ {\n")
+				for k := 0; k < n; k++ {
+					fmt.Fprintf(&a, "\t\ts ^= (i + %d) * xs[%d]\n", k%9+1, k%5)
+				}
+				a.WriteString("\t\ty0 := i\n")
+				for k := 1; k <= 40; k++ {
+					fmt.Fprintf(&a, "\t\ty%d := y%d + y%d\n", k, k-1, k-1)
+				}
+				fmt.Fprintf(&a, "\t\ts += y40%s\n\t}\n\treturn s\n}\n", extra)
+				return a.String()
+			}
+			return mk(""), mk(" + 1")
+		}},
 		{"doubling-dag-feeding-loop-bounds", pick([]int{16, 32, 64}, []int{16, 32, 64, 128}), func(n int) (string, string) {
 			mk := func(extra string) string {
 				var a strings.Builder
@@ -331,7 +350,7 @@ func dosChild(args []string) {
 }
 
 func suiteDos(c *Ctx) error {
-	c.Res.Rule = "adversarial families (identical operations on one value, identical operations in branches, doubling DAG inside a loop, doubling DAG feeding loop bounds, 10..120 nested loops, nested loops each starting at twice the enclosing loop's variable, sequential loops each starting at three times the previous loop's exit value, 500..6000 blocks incl. beyond MaxFunctionBlocks, phi rotation cycles, 64 KiB string literals, deep expressions) at 3 (thorough: 4) growing sizes, plus token-mutated generated sources; each case in a child process with a 90 s budget: FingerprintSource, ExtractTopology, Zipper(old, edited) with the areEquivalent counter (hook), cli.ComputeDiff; required: completion, no panic, counter <= 100*(referrer slots + blocks) + 2*min(100,|entry|)^2 (the bound of C17_propagate_cost evaluated on the real functions), canonical IR <= 16 KiB per instruction, OVERSIZED marker beyond the block cap; non-trivial = the function has at least 500 instructions; distinct by (family, size)"
+	c.Res.Rule = "adversarial families (identical operations on one value, identical operations in branches, doubling DAG inside a loop, the same after 600..6000 other values of the loop, doubling DAG feeding loop bounds, 10..120 nested loops, nested loops each starting at twice the enclosing loop's variable, sequential loops each starting at three times the previous loop's exit value, 500..6000 blocks incl. beyond MaxFunctionBlocks, phi rotation cycles, 64 KiB string literals, deep expressions) at 3 (thorough: 4) growing sizes, plus token-mutated generated sources; each case in a child process with a 90 s budget: FingerprintSource, ExtractTopology, Zipper(old, edited) with the areEquivalent counter (hook), cli.ComputeDiff; required: completion, no panic, counter <= 100*(referrer slots + blocks) + 2*min(100,|entry|)^2 (the bound of C17_propagate_cost evaluated on the real functions), canonical IR <= 16 KiB per instruction, OVERSIZED marker beyond the block cap; non-trivial = the function has at least 500 instructions; distinct by (family, size)"
 	self, _ := os.Executable()
 	budget := 90 * time.Second
 	run := func(name string, size int, srcA, srcB string) {
